@@ -278,6 +278,24 @@ def run(prop, tier, seed, replay=None):
     return rc
 
 
+def _sweep_audit_dirs(max_age=3600):
+    """Scratch runs (--no-evidence) write to per-process directories; drop those older than an hour."""
+    import shutil
+    now = time.time()
+    for sub in ("audit-evidence", "audit-reports"):
+        d = os.path.join(build.WORK, sub)
+        try:
+            for e in os.listdir(d):
+                pth = os.path.join(d, e)
+                try:
+                    if now - os.path.getmtime(pth) > max_age:
+                        shutil.rmtree(pth, ignore_errors=True)
+                except OSError:
+                    pass
+        except OSError:
+            pass
+
+
 def main(argv):
     import argparse
     ap = argparse.ArgumentParser()
@@ -290,6 +308,7 @@ def main(argv):
         global EVIDENCE, REPORTS
         EVIDENCE = os.path.join(build.WORK, "audit-evidence", str(os.getpid()))
         REPORTS = os.path.join(build.WORK, "audit-reports", str(os.getpid()))
+        _sweep_audit_dirs()
     tier = os.environ.get("VERIF_TIER") or a.tier or "quick"
     if tier not in ("quick", "thorough"):
         tier = "quick"
